@@ -25,6 +25,11 @@ Clauses
                    cursor of the same connection, on another connection (thorough), in one execute, in one executemany
                    (pairs; triples in thorough) - has exactly (type- and text-strictly) the effect b has on a fresh
                    instance that bound nothing else (untyped select list, cast to varchar, VARCHAR column)
+                   Also under this clause: statements that refer to a session variable ($v) with and without bound
+                   parameters after one SET, for every variable value that could be mistaken for (part of) a
+                   placeholder (%, %%, %s, %d, %(x)s, ?, :1) or needs quoting (quote, backslash, $x), every ordered
+                   pair (thorough: triple) of statement kinds, on one cursor and on separate cursors: each statement
+                   returns / stores the variable's value and the parameter's value, nothing raises
 
 Not demanded (ambiguous or outside the statement)
   * NaN / Infinity, bytes, the `numeric` paramstyle, lists under qmark (the connector's qmark list = array binding),
@@ -1108,7 +1113,130 @@ def seq3(item, acc, tier):
     return n
 
 
-WORK = {"grid": grid, "pairs": pairs, "many": many, "pstyle": pstyle, "seqbase": seqbase, "seq": seq, "seq3": seq3}
+# ---- histories with a session variable in the statement ------------------------------------------------------------------
+# A statement may refer to a session variable AND carry bound parameters.  The variable is inlined as text, the
+# parameters are substituted into text (client-side styles) or bound by the engine (qmark): any state kept about a
+# variable's text between two statements, and any variable value that looks like (part of) a placeholder, can make a
+# parameter stop being data or the variable stop being its value.  Enumerated completely: variable value x parameter
+# value x paramstyle x ordered pairs (thorough: triples) of statement kinds {no parameters, SELECT with parameter,
+# INSERT with parameter, ...} after one SET on a fresh connection, on one cursor and on three cursors of the connection.
+# Oracle (absolute): every statement of the history returns / stores the variable's value and the parameter's value;
+# nothing raises.  A variable value that does not even arrive through `select $v` on a fresh connection that never
+# binds anything is C15's subject: its histories are skipped and counted (`variable_not_delivered_without_parameters`).
+VARVALS = [
+    ("plain", "plain"), ("pct", "%"), ("pct", "%%"), ("pct", "50%"), ("pct", "a%b%"),
+    ("ph_format", "%s"), ("ph_format", "%d"), ("ph_format", "x%sy"), ("ph_pyformat", "%(x)s"), ("ph_pyformat", "%(p)s"),
+    ("ph_qmark", "?"), ("ph_numeric", ":1"), ("quote", "it's"), ("backslash", "a\\b"), ("dollar", "$x"), ("number", 5),
+]  # fmt: skip
+VAR_PARAMS = ["p", "%s", "it's \\ $v ? 100%", 7, None, "%(p)s", "50%%"]
+VAR_PARAMS_QUICK = ["p", "%s", "it's \\ $v ? 100%", 7]
+VSTMT = {
+    "N_sel": lambda b, p: "select $v as x",
+    "P_sel": lambda b, p: f"select $v as x, {b.ph(p, 'p')} as y",
+    "P_ins": lambda b, p: f"insert into tp (a, b) values ($v, {b.ph(p, 'p')})",
+    "N_ins": lambda b, p: "insert into tp (a, b) values ($v, 'lit')",
+}
+VSTMT_QUICK = ["N_sel", "P_sel", "P_ins"]
+VSTMT_ALL = ["N_sel", "P_sel", "P_ins", "N_ins"]
+
+
+def _as_varchar(x):
+    return x if x is None or isinstance(x, str) else str(x)
+
+
+def var_expected(kind, val, p):
+    """-> (result rows, families of the result columns, rows of tp afterwards).  Pure model."""
+    vf = "str" if isinstance(val, str) else "int"
+    pf = "int" if isinstance(p, int) else "str"
+    if kind == "N_sel":
+        return [(val,)], (vf,), []
+    if kind == "P_sel":
+        return [(val, p)], (vf, pf), []
+    if kind == "P_ins":
+        return [(1,)], ("exact",), [(_as_varchar(val), _as_varchar(p))]
+    if kind == "N_ins":
+        return [(1,)], ("exact",), [(_as_varchar(val), "lit")]
+    raise AssertionError(kind)
+
+
+def var_step(env, cur, style, kind, val, p):
+    b = Binder(style)
+    sql = VSTMT[kind](b, p)
+    params = b.params() if kind.startswith("P_") else None
+    env.load("tp", [])
+    out = env.execute(sql, params, cur)
+    obs = (out, env.read("tp"), True)
+    rows, fams, tp1 = var_expected(kind, val, p)
+    ok, _, mode = judge(fams, rows, ("str", "str"), tp1, obs, [])
+    return ok, mode, sql, params, obs, rows, tp1
+
+
+def var_histories(tier):
+    kinds = VSTMT_QUICK if tier == "quick" else VSTMT_ALL
+    h = [(a, b) for a in kinds for b in kinds]
+    if tier != "quick":
+        h += [(a, b, c) for a in VSTMT_QUICK for b in VSTMT_QUICK for c in VSTMT_QUICK]
+    return h
+
+
+def vseq(item, acc, tier):
+    """item = ('vseq', style, vvi): one variable value; every parameter value x history x cursor mode."""
+    _, style, vvi = item
+    vkind, val = VARVALS[vvi]
+    env = Env(style, "str", pair=True)
+    n = 0
+    try:
+        # is the variable's value delivered at all, without any parameter anywhere?
+        conn = _connect(env)
+        cur = conn.cursor()
+        set_sql = f"set v = {L.render(val)}"
+        s0 = env.execute(set_sql, None, cur)
+        ok0, _, _, _, obs0, _, _ = var_step(env, cur, style, "N_sel", val, None)
+        conn.close()
+        acc.count("statements_executed", 2)
+        acc.obs((style, vvi, s0, repr(obs0)))
+        if not ok0:
+            acc.count("variable_not_delivered_without_parameters")
+            acc.note(f"session variable value kind {vkind} ({val!r}) does not arrive through select $v without parameters (C15 territory): its histories are skipped")  # fmt: skip
+            return 0
+        for pi, p in enumerate(VAR_PARAMS_QUICK if tier == "quick" else VAR_PARAMS):
+            for hist in var_histories(tier):
+                for cursors in ("one", "each"):
+                    conn = _connect(env)
+                    try:
+                        c0 = conn.cursor()
+                        env.execute(set_sql, None, c0)
+                        acc.count("statements_executed")
+                        for k, kind in enumerate(hist):
+                            cur = c0 if cursors == "one" else conn.cursor()
+                            ok, mode, sql, params, obs, rows, tp1 = var_step(env, cur, style, kind, val, p)
+                            n += 1
+                            acc.count("evaluations")
+                            acc.count("statements_executed")
+                            acc.obs((style, vvi, pi, hist, cursors, k, repr(obs)))
+                            acc.outcome(("vseq", kind, bind_kind(style), obs[0][0], repr(obs[0][1])[:60]))
+                            acc.nontrivial((style, vvi, pi, hist, cursors, k))
+                            cls = f"hist=var:{'>'.join(hist)},step={k + 1},cursors={cursors},style={style},var={vkind}"
+                            acc.member("C08.history", cls, not ok)
+                            if not ok:
+                                detail = {
+                                    "style": style, "set": set_sql, "variable_value": val, "parameter": p, "history": list(hist),
+                                    "failing_step": k + 1, "cursors": cursors, "sql": sql, "params": params, "mode": mode,
+                                    "expected_rows": rows, "expected_tp": tp1, "observed": show(obs),
+                                }  # fmt: skip
+                                acc.violation("C08.history", cls, detail, {"kind": "vseq", "style": style, "vvi": vvi, "tier": tier})
+                    finally:
+                        try:
+                            conn.close()
+                        except Exception:  # noqa: BLE001
+                            pass
+    finally:
+        env.close()
+    acc.sample({"item": ["vseq", style, vkind, val], "statements_judged": n})
+    return n
+
+
+WORK = {"grid": grid, "pairs": pairs, "many": many, "pstyle": pstyle, "seqbase": seqbase, "seq": seq, "seq3": seq3, "vseq": vseq}
 
 
 def work(item, acc, tier):
@@ -1162,7 +1290,9 @@ def run(ctx: core.Ctx):
         "after connect (made under 3 x changed to 3 others incl. numeric x cursor made before/after x 7 cases, plus a second connection under the new value); "
         "histories: all ordered pairs (a, b) of the value alphabet SEQ (Python-equal but different data, and ordinary values) x 4 styles, b bound after a on "
         "the same cursor / a second cursor / a second connection (thorough) at 3 identity-revealing positions, in one execute, in one executemany "
-        "(thorough: all ordered triples of 9 values), each compared by repr with b's own effect on a fresh instance. Quick tier: strings reduced to the breaker list except at "
+        "(thorough: all ordered triples of 9 values), each compared by repr with b's own effect on a fresh instance; "
+        "variable histories: 16 session-variable values x parameter values x 4 styles x all ordered pairs (thorough: and triples) of statement kinds "
+        "(select $v / select $v, p / insert $v, p / thorough: insert $v) after one SET on a fresh connection x (one cursor | a cursor per statement), judged against the model. Quick tier: strings reduced to the breaker list except at "
         "positions sel/ins/where/like_pat/comment_lit, pairs over the breaker list. Non-trivial = case whose value is "
         "not NULL/empty/zero (value positions) or whose expected row set is non-empty (matching positions)."
     )
@@ -1184,7 +1314,9 @@ def run(ctx: core.Ctx):
     if ctx.tier != "quick":
         seq_items += [("seq3", style, ai, base[style]) for style in STYLE_ORDER for ai, (nm, _) in enumerate(SEQ) if nm in SEQ3]
     res = res + ctx.pmap(work, seq_items, chunk=1)
-    items = items + base_items + seq_items
+    var_items = [("vseq", style, vvi) for style in STYLE_ORDER for vvi in range(len(VARVALS))]
+    res = res + ctx.pmap(work, var_items, chunk=1)
+    items = items + base_items + seq_items + var_items
     ctx.exhaustive = True
     kinds = {}
     for it, n in res:
@@ -1196,6 +1328,8 @@ def run(ctx: core.Ctx):
         "positions": POS_ORDER, "styles": STYLE_ORDER, "pair_alphabet": len(pair_values(ctx.tier)),
         "executemany_set_sizes": [0, 1, 3], "module_paramstyles": MODULE_STYLES,
         "history_values": [SEQ[i][0] for i in seq_indexes(ctx.tier, "pyformat_seq")], "history_positions": SEQ_POS_ORDER,
+        "variable_values": [v for _, v in VARVALS], "variable_history_parameters": VAR_PARAMS_QUICK if ctx.tier == "quick" else VAR_PARAMS,
+        "variable_histories": [">".join(h) for h in var_histories(ctx.tier)], "variable_history_cursors": ["one", "each"],
         "history_modes": ["same_cursor", "two_cursors", "one_execute", "executemany"] + ([] if ctx.tier == "quick" else ["two_conns", "executemany3"]),
     }  # fmt: skip
     ctx.extra["bound"] = "full product of the written-out alphabets for this tier"
@@ -1229,6 +1363,8 @@ def replay(payload):
             env.close()
     elif k == "pstyle":
         work(("pstyle", r["made"], r["now"], r["when"]), acc, "quick")
+    elif k == "vseq":
+        vseq(("vseq", r["style"], r["vvi"]), acc, r["tier"])
     elif k in ("seq", "seq3"):
         idx = [r["ai"], r["bi"]] + ([r["ci"]] if k == "seq3" else [])
         base = {vi: seqbase(("seqbase", r["style"], vi), core.Acc(), "thorough") for vi in sorted(set(idx))}
@@ -1246,7 +1382,7 @@ def replay(payload):
     want = (payload["clause"], payload["class"])
     hit = want in acc.viol
     for (clause, cls), v in sorted(acc.viol.items()):
-        if (clause, cls) == want or k not in ("pstyle", "seq3"):
+        if (clause, cls) == want or k not in ("pstyle", "seq3", "vseq"):
             print(f"{clause} / {cls}")
             print(json.dumps(v["detail"], indent=1, sort_keys=True, default=repr)[:4000])
     print("verdict:", "VIOLATION reproduced" if hit else "ok (not reproduced)")
